@@ -26,7 +26,7 @@ from deep.grpc import GRPCService
 from deep.poll import LongPoll
 from deep.processor.trigger_handler import TriggerHandler
 from deep.push import PushService
-from deep.task import TaskHandler
+from deep.task import TaskHandler, IllegalStateException
 
 
 class Deep:
@@ -90,7 +90,9 @@ class Deep:
         for plugin in self.config.plugins:
             try:
                 plugin.shutdown()
-            except Exception:
+            except (Exception, IllegalStateException):
+                # (a plugin that tidies up, e.g. unregisters a tracepoint, finds the task handler closed by now: our own
+                # IllegalStateException is not an Exception)
                 deep.logging.exception("Failed to shutdown plugin %s", plugin.name)
         deep.logging.info("Deep is shutdown.")
         self.started = False
